@@ -47,11 +47,11 @@ func C07(r *core.Report) {
 	r.Floor("C07.R9", 1)
 	r.Floor("C07.R8", 1)
 	r.Floor("C07.R1", 3)
-	r.Floor("C07.R2", 4)
-	r.Floor("C07.R3", 2)
-	r.Floor("C07.R4", 2)
-	r.Floor("C07.R5", 4)
-	r.Floor("C07.R6", 4)
+	r.Floor("C07.R2", 2)
+	r.Floor("C07.R3", 1)
+	r.Floor("C07.R4", 1)
+	r.Floor("C07.R5", 2)
+	r.Floor("C07.R6", 2)
 	r.Floor("C07.R7", 1)
 }
 
